@@ -58,4 +58,5 @@ registry! {
     c34::C34,
     c36::C36,
     c38::C38,
+    c39::C39,
 }
